@@ -117,6 +117,9 @@ def run_property(pid, tier="quick", seed=0, jobs=None):
         ctx = mp.get_context("fork")
         with ctx.Pool(jobs) as pool:
             outs = pool.map(_run_one, work, chunksize=1)
+    if os.environ.get("PYVC_TIMING"):
+        for o in sorted(outs, key=lambda o: -o.get("wall", 0))[:8]:
+            print(f"TIMING {o['task']}: {o.get('wall', 0):.1f}s, {len(o['results'])} results")
     known = load_known()
     results = []
     specs = set()
